@@ -39,6 +39,9 @@ pub fn make_tree(root: &Path, files: &Value) {
     for f in list.iter().rev() {
         let p = root.join(f["path"].as_str().unwrap().trim_start_matches('/'));
         let kind = f["kind"].as_str().unwrap_or("File");
+        if f["user_unnamed"].as_bool().unwrap_or(false) {
+            let _ = std::os::unix::fs::lchown(&p, Some(54321), None);
+        }
         if f["group_unnamed"].as_bool().unwrap_or(false) {
             // an owner of which only the user has a name (needs root; otherwise the file keeps the caller's ids)
             let _ = std::os::unix::fs::lchown(&p, None, Some(54322));
